@@ -6,7 +6,7 @@ META = {
     "technique": "Coq proof: algebraic inverse laws of the round body (any rotation table), lifted by fold induction; differential correspondence model<->impl plus direct D(E(b))=b search",
     "level_text": "Machine-checked theorems C10_decrypt_encrypt / C10_encrypt_decrypt / C10_encrypt_injective: for every key, tweak, block, both unroll variants and ANY rotation table, the model of decrypt_block inverts the model of encrypt_block and vice versa, at the byte level. Model tied to the code by running E and D of the implementation and of the model on the same generated cases inside coqc (vm_compute). Bijection stated literally: C10_encrypt_wellformed / C10_decrypt_wellformed (E(b), D(b) are blocks of the right length of bytes), C10_encrypt_surjective / C10_decrypt_surjective, C10_bijection.",
     "level_note": "Trusted: Coq kernel+VM; hand-written model of block-ciphers/threefish/src/lib.rs (tied only on generated cases); harness and case printer. No axioms.",
-    "rule": "cases = (size, key, tweak, block) from seeded xoshiro: zero vectors, published-vector inputs, then structured/random (zero, ones, counting, single-bit, carry-heavy, random); distinct = distinct (size,key,tweak,block); non-trivial = key or block non-zero; each case runs E(b), D(b), D(E(b)), E(D(b)) on the implementation and E, D on the model",
+    "rule": "cases = (size, key, tweak, block) from seeded xoshiro: zero vectors, published-vector inputs, then structured/random (zero, ones, counting, single-bit, carry-heavy, random); distinct = distinct (size,key,tweak,block); non-trivial = key or block non-zero; each case runs E(b), D(b), D(E(b)), E(D(b)) on the implementation and E, D on the model; the constructor rotates over with_tweak / NewBlockCipher::new / new_from_slice and the blocks travel through encrypt_block / decrypt_block, encrypt_blocks / decrypt_blocks on a 3-block slice (equal blocks at positions 0 and 2 must give equal results: direct failure otherwise), the par_blocks forms, or a clone of the object, rotating with case index and seed; all four blocks of a case pass through ONE object; one key in six has the parity word k[N_w] within 20 of 2^64; every call runs under catch_unwind: a panic is a direct failure with key, tweak and block as failing input",
     "assumptions": ["little-endian host", "cipher 0.3 GenericArray block API only forwards to encrypt_block/decrypt_block"],
 }
 
